@@ -58,7 +58,7 @@ Example ex_table_ok : table_ok ex_table = true.
 Proof. vm_compute. reflexivity. Qed.
 
 (* a (2,) array of Vector3 with a (2,)-denominator, integer data coerced to float, array mask *)
-Definition ex_args := mkargs CVector3 [2; 3; 2] KInt true None (Some 1) (MAArr [2] true) true false.
+Definition ex_args := mkargs CVector3 [2; 3; 2] KInt true None (Some 1) (MAArr [2] true false) true false.
 Example ex_ctor_ok : exists s, mk_qube ex_table ex_args = Some s /\ c_shape (s_core s) = [2] /\
   c_numer (s_core s) = [3] /\ c_denom (s_core s) = [2] /\ vkind (c_vals (s_core s)) = KFloat.
 Proof. eexists. split; [vm_compute; reflexivity|]. vm_compute. repeat split; reflexivity. Qed.
@@ -66,7 +66,7 @@ Example ex_ctor_rejects : mk_qube ex_table (mkargs CVector3 [2; 4] KFloat true N
 Proof. vm_compute. reflexivity. Qed.
 
 Definition ex_parent :=
-  match mk_qube ex_table (mkargs CScalar [3] KFloat false None None (MAArr [3] true) true false) with
+  match mk_qube ex_table (mkargs CScalar [3] KFloat false None None (MAArr [3] true false) true false) with
   | Some s => s | None => bare (mkcore CScalar [] [] [] [] 0 0 0 1 1 1 1 (VScalar KFloat) (MBool false) (VScalar KFloat) false false None None)
   end.
 Definition ex_deriv :=     (* an int Scalar of shape () that carries a derivative of its own *)
